@@ -188,9 +188,9 @@ func (g *goSide) setIn(k int, v uint64, valid bool) {
 	g.vm.Inputs[k] = fromU64(g.rsize, v)
 	g.vm.InputsValid[k] = valid
 }
-func (g *goSide) inRecv(k int) bool         { return g.vm.InputsRecv[k] }
-func (g *goSide) out(k int) (uint64, bool)  { return toU64(g.vm.Outputs[k]), g.vm.OutputsValid[k] }
-func (g *goSide) setOutRecv(k int, b bool)  { g.vm.OutputsRecv[k] = b }
+func (g *goSide) inRecv(k int) bool        { return g.vm.InputsRecv[k] }
+func (g *goSide) out(k int) (uint64, bool) { return toU64(g.vm.Outputs[k]), g.vm.OutputsValid[k] }
+func (g *goSide) setOutRecv(k int, b bool) { g.vm.OutputsRecv[k] = b }
 func (g *goSide) step() (ret bool, err error) {
 	defer func() {
 		if r := recover(); r != nil {
